@@ -97,7 +97,7 @@ def truth_by_distance(pred, idx, L):
 
 def run(prog, rep, tier):
     f = need(prog, Q)
-    S = Sym(prog)
+    S = Sym(prog, inline=inline_helpers(prog, "sempler.utils"))
     summ, _ = run_function(S, f)
     # ---- TOL
     raises = [r for r in S.select("raise", qname=Q) if r.exctype == "ValueError"]
